@@ -4,7 +4,7 @@ C07 — native tokens are conserved: property theorems over the ledger model `Yo
 `total` = balances + staked tokens + validators' undistributed rewards + role pools + global residue + unfinished
 withdrawals + tokens detained by pending transactions + fees in flight (header.GasRewards) + burnt.
 -/
-import YouVerif.C07.Proofs
+import YouVerif.C07.ProofsPeriod
 namespace YouVerif.C07
 
 /-! ## transactions -/
@@ -59,11 +59,11 @@ theorem endBlock_conserves_within_period (p : Params) (s : St) (cb : Addr) (orde
   endBlock_within_period p s cb order hI hn hok
 
 /-- withdrawn stake returns to its recipient exactly once: processWithdrawQueue releases a matured record and marks it
-finished in the same step, never touches a finished one, and only discards finished ones — balances + unfinished records
-are unchanged (record amounts non-negative) -/
-theorem withdraw_paid_once (p : Params) (n : Nat) (q : List WRec) (bal : List (Addr × Int)) (h : ∀ r ∈ q, 0 ≤ r.final) :
+finished in the same step, never touches a finished one, never pays a non-positive amount and only discards finished
+records — balances + outstanding records are unchanged, for every queue -/
+theorem withdraw_paid_once (p : Params) (n : Nat) (q : List WRec) (bal : List (Addr × Int)) :
     sumUnfinished (processQueue p n q bal).1 + sumI (processQueue p n q bal).2 = sumUnfinished q + sumI bal :=
-  processQueue_spec p n q bal h
+  processQueue_spec p n q bal
 
 example : (processQueue {} 200 [{ validator := 5, delegator := 0, recipient := 9, final := 70, finished := false, completion := 100 }] []).2 = [(9, 70)] := by decide
 
@@ -86,24 +86,49 @@ theorem failed_deposit_refunded (p : Params) (s : St) (t : PTx) (v : Val) (hk : 
     simp [hk, hg, hx]
   rw [this]; exact ⟨rfl, total_credit _ _ _⟩
 
-/-- take-effect handlers (create, update, deposit incl. refund, withdraw into the queue, change status, settle,
-delegation add incl. refunds, delegation settle): exactly the detained value leaves "pending" — into the validator's
-stake or back to the sender. Partial: delegation-sub (kind 17) is not covered. -/
-theorem takeEffect_conserves_partial (p : Params) (s : St) (t : PTx) (h17 : t.kind ≠ 17)
-    (hc : t.kind = 1 → getVal s.vals t.val = none) (hv : t.kind = 16 → 0 ≤ t.value) (hok : (takeEffect p s t).2 = .ok) :
-    total (takeEffect p s t).1 = total s + (if detains t.kind then t.value else 0) :=
-  takeEffect_partial p s t h17 hc hv hok
+/-- every take-effect handler (all nine kinds) moves exactly the detained value out of "pending": into the validator's
+stake, into the withdraw queue, or back to the sender (V5 refunds). `tl` = `total` + the ghost loss counters; the only
+branches that feed a counter are unreachable ones (create on an existing validator, negative withdrawal amount). -/
+theorem takeEffect_conserves (p : Params) (s : St) (t : PTx) (hv : t.kind = 16 → 0 ≤ t.value) (hok : (takeEffect p s t).2 = .ok) :
+    tl (takeEffect p s t).1 = tl s + (if detains t.kind then t.value else 0) :=
+  (takeEffect_acct p s t hv hok).1
 
-/-- the full statement (all kinds) -/
-def takeEffect_statement : Prop :=
-  ∀ (p : Params) (s : St) (t : PTx), (t.kind = 1 → getVal s.vals t.val = none) → (t.kind = 16 → 0 ≤ t.value) →
-    (takeEffect p s t).2 = .ok → total (takeEffect p s t).1 = total s + (if detains t.kind then t.value else 0)
+/-- penalties arrive in the penalty account: doPenalize/takePenalty (from unfinished withdraw records first, then own
+stake, then delegations, each capped by what is there) credit PenaltyTo with exactly what was taken -/
+theorem penalty_to_penaltyAccount (p : Params) (s : St) (v : Val) (amount : Int) (h : getVal s.vals v.addr = some v)
+    (hok : (penalize p s v amount).2 = .ok) : tl (penalize p s v amount).1 = tl s :=
+  (penalize_acct p s v amount h hok).1
 
-/-- intended: penalties arrive in the penalty account — doPenalize/takePenalty conserve when handed the stored object
-(not proved; covered by correspondence and the oracle) -/
-def penalty_to_penaltyAccount_statement : Prop :=
-  ∀ (p : Params) (s : St) (v : Val) (amount : Int), getVal s.vals v.addr = some v → 0 ≤ amount →
-    (∀ r ∈ s.queue, 0 ≤ r.final) → (penalize p s v amount).2 = .ok → total (penalize p s v amount).1 = total s
+example : (penalize {} { vals := [⟨5, 105, 205, 1, 1, 2000, 2000, 2000, 2000, 0, 0, 0, 0, 0, false, 0, 0, 0, []⟩] }
+    ⟨5, 105, 205, 1, 1, 2000, 2000, 2000, 2000, 0, 0, 0, 0, 0, false, 0, 0, 0, []⟩ 20).1.bal = [(2, 20)] := by decide
+
+/-- inactivity slashing and recovery of expired expulsions over all validators -/
+theorem inactivity_slashing_conserves (p : Params) (s : St) (hok : (slashLoop p (s.vals.map (·.addr)) s).2 = .ok) :
+    tl (slashLoop p (s.vals.map (·.addr)) s).1 = tl s :=
+  (slashLoop_acct p _ s hok).1
+
+/-- distributeRewards: what leaves the role pools reaches the validators and the pools keep exactly the division
+remainders — except what the forced settlement with the stale validator object overwrites, which `lost` records exactly
+(F-C07a). Side condition of conservation proper: `(distribute p s).1.lost = s.lost`. -/
+theorem distribute_accounting (p : Params) (s : St) (hok : (distribute p s).2.1 = .ok) :
+    total (distribute p s).1 + (distribute p s).1.lost + (distribute p s).1.lostOther = total s + s.lost + s.lostOther :=
+  (distribute_acct p s hok).1
+
+/-- processPendingTxs: settle first, then every pending transaction takes effect; all pending value arrives -/
+theorem pending_take_effect_conserves (p : Params) (pend : List PRec) (settled : List Addr) (s : St) (hp : PendOK pend)
+    (hok : (pendingLoop p pend settled s).2 = .ok) :
+    tl (pendingLoop p pend settled s).1 = tl s + pendingValue pend :=
+  (pendingLoop_acct p pend settled s hp hok).1
+
+/-- the whole end-block hook of ANY block (period end or not): exact accounting. Whatever leaves `total` is recorded in
+exactly one loss counter: `lost` = rewards overwritten by the forced settlement (F-C07a), `lostDel` = rewards of
+validators removed as empty (F-C07d), `lostOther` = paths no realistic chain reaches ("empty stake", a visiting order
+not covering the pending records, create on an existing validator, negative withdrawal/penalty). -/
+theorem endBlock_accounting (p : Params) (s : St) (cb : Addr) (order : List (Addr × Addr)) (hI : Inv s) (hp : PendOK s.recs)
+    (hok : (endBlock p s cb order).2 = .ok) :
+    total (endBlock p s cb order).1 + (endBlock p s cb order).1.lost + (endBlock p s cb order).1.lostDel
+      + (endBlock p s cb order).1.lostOther = total s :=
+  (endBlock_acct p s cb order hI hp hok).1
 
 /-! ## chains -/
 
@@ -190,18 +215,73 @@ theorem step_conserves_counterexample : ¬ step_conserves_statement := by
   revert h1
   decide
 
-/-- The intended full chain theorem (not proved: period-end steps need `penalize`, `distribute` without forced settlement,
-`processQueue`, `takeEffect` and `removeInvalid` without residue — proved so far: `settle_conserves`; the others are
-covered by the block-by-block correspondence and the conservation oracle on the real dumps). -/
-def chain_conserves_statement : Prop :=
-  ∀ (p : Params) (ops : List Op) (s : St), Inv s → (∀ o ∈ ops, mintedGasOp o = 0) →
-    (run p s ops).2 = .ok → (∀ pre ∈ prefixes p s ops, pre.lost = 0 ∧ pre.lostDel = 0) → total (run p s ops).1 = total s
-where
-  mintedGasOp : Op → Nat
-    | .tx t => mintedGas t
-    | _ => 0
-  prefixes (p : Params) : St → List Op → List St
-    | s, [] => [s]
-    | s, o :: t => s :: prefixes p (step p s o).1 t
+/-! ## the chain theorem across staking-period ends -/
+
+/-- the decidable side conditions, evaluated along the run, that exclude exactly the known-finding branches:
+no EVM gas refund in a transaction (F-C07c), and an end-block hook whose loss counters stay 0 — no reward overwritten by the
+forced settlement (F-C07a), no validator removed with undistributed rewards (F-C07d), none of the unreachable paths -/
+def Clean (p : Params) : St → List Op → Prop
+  | _, [] => True
+  | s, o :: t =>
+    (match o with
+     | .tx tx => mintedGas tx = 0
+     | .endBlock cb order => (endBlock p s cb order).1.lost = 0 ∧ (endBlock p s cb order).1.lostDel = 0 ∧ (endBlock p s cb order).1.lostOther = 0
+     | .beginBlock _ _ => True) ∧ Clean p (step p s o).1 t
+
+/-- step_conserves: every operation kind, period ends included -/
+theorem step_conserves (p : Params) (s : St) (o : Op) (hI : Inv s) (hp : PendOK s.recs) (hc : Clean p s [o])
+    (hok : (step p s o).2 = .ok) :
+    total (step p s o).1 = total s ∧ Inv (step p s o).1 ∧ PendOK (step p s o).1.recs := by
+  cases o with
+  | beginBlock n g => exact ⟨rfl, hI, hp⟩
+  | tx t =>
+    obtain ⟨hv, hr, hf⟩ := applyTx_frame p s t
+    refine ⟨tx_conserves p s t hc.1, ?_, applyTx_pendOK p s t hp⟩
+    simp only [step]
+    exact ⟨by have := hI.1; omega, by rw [hr]; exact hI.2.1, by rw [hv]; exact hI.2.2⟩
+  | endBlock cb order =>
+    have h := endBlock_acct p s cb order hI hp hok
+    have hcl := hc.1
+    simp only at hcl
+    refine ⟨?_, h.2, endBlock_pendOK p s cb order hp hok⟩
+    have h1 := h.1
+    simp only [step] at *
+    omega
+
+/-- chain_conserves: for every history of blocks — any valid or invalid transfers, contract calls (observed), all nine
+staking messages, block rewards and subsidies, inactivity penalties, reward distribution and settlement, withdrawals,
+activation or refund of pending deposits and delegations, over any number of staking periods — `total` at the end equals
+`total` at the start, provided the run is `Clean` (decidable; excludes exactly F-C07a, F-C07c, F-C07d and the unreachable
+paths) and does not crash. `Inv` and `PendOK` hold of every genesis state and are proved to be maintained. -/
+theorem chain_conserves (p : Params) (ops : List Op) (s : St) (hI : Inv s) (hp : PendOK s.recs) (hc : Clean p s ops)
+    (hok : (run p s ops).2 = .ok) : total (run p s ops).1 = total s := by
+  induction ops generalizing s with
+  | nil => rfl
+  | cons o t ih =>
+    unfold run at hok ⊢
+    have hc1 : Clean p s [o] := ⟨hc.1, trivial⟩
+    generalize hst : step p s o = r at *
+    obtain ⟨s', out⟩ := r
+    cases out with
+    | crash => simp at hok
+    | ok =>
+      simp only at *
+      have := step_conserves p s o hI hp hc1 (by rw [hst])
+      rw [hst] at this
+      have hc2 : Clean p s' t := by have := hc.2; rw [hst] at this; exact this
+      rw [ih s' this.2.1 this.2.2 hc2 hok, this.1]
+
+/-- non-vacuity: a two-period chain (32 blocks worth of end-block hooks compressed to the two period ends) with a pending
+deposit that takes effect is Clean, does not crash, and conserves -/
+def gp : St := { bal := [(105, 50000)], vals := [mkVal 5 1 1 2000 0], number := 14 }
+def opsp : List Op :=
+  [.beginBlock 15 30000000,
+   .tx { sender := 105, nonce := 0, gasLimit := 1200000, price := 0, intrinsic := 100000,
+         body := .staking true { kind := 3, sender := 105, val := 5, value := 700 } },
+   .endBlock 5 [(0, 5)]]
+example : Inv gp ∧ PendOK gp.recs := ⟨⟨by decide, by decide, by decide⟩, by intro r hr; simp [gp] at hr⟩
+example : (run {} gp opsp).2 = .ok := by decide
+example : Clean {} gp opsp := ⟨trivial, rfl, by decide, trivial⟩
+example : total (run {} gp opsp).1 = total gp ∧ (getVal (run {} gp opsp).1.vals 5).map (·.selfToken) = some 2000000000000000000700 := by decide
 
 end YouVerif.C07
